@@ -327,6 +327,7 @@ type vdScenarioEnv struct {
 	out   *vdScenarioOut
 	ids   []uint64
 	next  uint64
+	bound int // segment / ring boundary of the real mailbox to align the race to (0: none)
 	rels  []func()
 	ctx   context.Context
 	trace func(string)
@@ -359,6 +360,38 @@ func (e *vdScenarioEnv) idle() bool {
 		return e.pid.schedState.Load() == dispatchIdle && e.gate.inner.IsEmpty() && e.rec.inHandler.Load() == 0
 	})
 }
+
+// alignTo sends filler messages (all handled, actor idle again) until the number of successful enqueues into
+// the gated mailbox is congruent to boundary-k modulo boundary: the scenario's next k enqueues end exactly on a
+// segment / ring boundary of the real mailbox and the racing one is the first beyond it.
+func (e *vdScenarioEnv) alignTo(boundary, k int) bool {
+	if boundary <= 0 {
+		return true
+	}
+	for guard := 0; guard < 4*boundary; guard++ {
+		n := int(e.gate.hits[gpEnqAfter].Load())
+		if n%boundary == (boundary-k%boundary)%boundary {
+			break
+		}
+		m := e.msg(false, false)
+		if !e.tell(m) {
+			return false
+		}
+	}
+	ok := vdWaitUntil(20*time.Second, func() bool {
+		c, _ := e.rec.snapshot()
+		for _, id := range e.ids {
+			if c[id] == 0 {
+				return false
+			}
+		}
+		return true
+	})
+	e.out.Trace = e.out.Trace[:0]
+	e.trace(fmt.Sprintf("aligned: %d enqueues so far (boundary %d, %d before the racing one)", e.gate.hits[gpEnqAfter].Load(), boundary, k))
+	return ok && e.idle()
+}
+
 func (e *vdScenarioEnv) handled(id uint64) bool {
 	c, _ := e.rec.snapshot()
 	return c[id] > 0
@@ -366,7 +399,14 @@ func (e *vdScenarioEnv) handled(id uint64) bool {
 
 // vdRunScenario builds a fresh system + gated actor, runs body, then applies the oracle.
 func vdRunScenario(name, mailbox string, budget int, body func(e *vdScenarioEnv) bool) (out vdScenarioOut) {
+	return vdRunScenarioAt(name, mailbox, budget, 0, body)
+}
+
+func vdRunScenarioAt(name, mailbox string, budget, boundary int, body func(e *vdScenarioEnv) bool) (out vdScenarioOut) {
 	out.Name, out.Mailbox = name, mailbox
+	if boundary > 0 {
+		out.Name = fmt.Sprintf("%s @boundary %d", name, boundary)
+	}
 	ctx := context.Background()
 	sys, err := vdNewSystem("vdscen", WithThroughputBudget(budget))
 	if err != nil {
@@ -382,7 +422,7 @@ func vdRunScenario(name, mailbox string, budget int, body func(e *vdScenarioEnv)
 		return
 	}
 	var tmu sync.Mutex
-	e := &vdScenarioEnv{sys: sys, pid: pid, rec: rec, gate: gate, out: &out, ctx: ctx}
+	e := &vdScenarioEnv{sys: sys, pid: pid, rec: rec, gate: gate, out: &out, ctx: ctx, bound: boundary}
 	e.trace = func(s string) { tmu.Lock(); out.Trace = append(out.Trace, s); tmu.Unlock() }
 	if !e.idle() {
 		out.Why = "actor did not become idle after start"
@@ -441,7 +481,65 @@ func c01StateNameLib(v uint32) string {
 func vdScenarios(mailbox string) []vdScenarioOut {
 	var outs []vdScenarioOut
 	// S1: a message is enqueued between the worker's last (empty) Dequeue and its reset to Idle.
-	outs = append(outs, vdRunScenario("S1 enqueue between empty dequeue and reset", mailbox, 32, func(e *vdScenarioEnv) bool {
+	outs = append(outs, vdRunScenario(vdS1Name, mailbox, 32, vdS1))
+	outs = append(outs, vdRunScenario(vdS8Name, mailbox, 32, vdS8))
+	outs = append(outs, vdScenariosRest(mailbox)...)
+	return outs
+}
+
+const vdS1Name = "S1 enqueue between empty dequeue and reset"
+const vdS6Name = "S6 reclaim after a non-empty re-check"
+const vdS8Name = "S8 turn consumes exactly the budget, enqueue while the owner checks emptiness"
+
+// vdScenariosAtBoundary: the reclaim races with the real mailbox sitting exactly on a segment / ring boundary.
+func vdScenariosAtBoundary(mailbox string, boundary int) []vdScenarioOut {
+	return []vdScenarioOut{
+		vdRunScenarioAt(vdS1Name, mailbox, 32, boundary, vdS1),
+		vdRunScenarioAt(vdS6Name, mailbox, 32, boundary, vdS6),
+	}
+}
+
+// S8: the turn handles exactly `budget` messages and leaves both mailboxes empty. Wherever the owner next
+// evaluates IsEmpty()==true (after its reset in the unmodified protocol), a Tell lands right there.
+func vdS8(e *vdScenarioEnv) bool {
+	budget := e.pid.dispatcher.throughput
+	hold := newVdPauser(gpDeqBefore, 1, -1)
+	race := newVdPauser(gpEmptyAfter, 1, 1)
+	e.gate.setHook(func(p vdGatePoint, b bool) { hold.hook(p, b); race.hook(p, b) })
+	defer hold.release()
+	defer race.release()
+	if !e.tell(e.msg(false, false)) {
+		return false
+	}
+	if !vdWait(hold.reached, 15*time.Second) {
+		e.out.Why = "worker never started its turn"
+		return false
+	}
+	for i := 1; i < budget; i++ { // the turn will find exactly `budget` messages
+		if !e.tell(e.msg(false, false)) {
+			return false
+		}
+	}
+	hold.release()
+	if !vdWait(race.reached, 15*time.Second) {
+		e.out.Why = "owner never saw an empty mailbox"
+		return false
+	}
+	e.trace(fmt.Sprintf("owner paused after IsEmpty()==true, state %s, %d handled", c01StateNameLib(e.pid.schedState.Load()), e.rec.handledN.Load()))
+	mR := e.msg(false, false)
+	if !e.tell(mR) {
+		return false
+	}
+	race.release()
+	return true
+}
+
+func vdS1(e *vdScenarioEnv) bool {
+	{
+		if !e.alignTo(e.bound, 1) {
+			e.out.Why = "could not align the mailbox to its boundary"
+			return false
+		}
 		pa := newVdPauser(gpDeqAfterNil, 1, -1)
 		e.gate.setHook(pa.hook)
 		defer pa.release()
@@ -459,7 +557,11 @@ func vdScenarios(mailbox string) []vdScenarioOut {
 		}
 		pa.release()
 		return true
-	}))
+	}
+}
+
+func vdScenariosRest(mailbox string) []vdScenarioOut {
+	var outs []vdScenarioOut
 	// S2: after the reset, before the emptiness re-check: a producer wins the schedule, another
 	// worker takes the turn and is inside the handler; the first worker must not continue.
 	outs = append(outs, vdRunScenario("S2 new owner between reset and re-check", mailbox, 32, func(e *vdScenarioEnv) bool {
@@ -569,47 +671,7 @@ func vdScenarios(mailbox string) []vdScenarioOut {
 		return true
 	}))
 	// S6: a message told while the first worker is paused after a NON-empty re-check (it will reclaim).
-	outs = append(outs, vdRunScenario("S6 reclaim after a non-empty re-check", mailbox, 32, func(e *vdScenarioEnv) bool {
-		pa := newVdPauser(gpDeqAfterNil, 1, -1)
-		pb := newVdPauser(gpEmptyAfter, 1, 0)
-		e.gate.setHook(func(p vdGatePoint, b bool) { pa.hook(p, b); pb.hook(p, b) })
-		defer pa.release()
-		defer pb.release()
-		if !e.tell(e.msg(false, false)) {
-			return false
-		}
-		if !vdWait(pa.reached, 15*time.Second) {
-			e.out.Why = "worker never observed an empty dequeue"
-			return false
-		}
-		m1 := e.msg(false, true)
-		if !e.tell(m1) { // TrySchedule fails: state is Processing
-			return false
-		}
-		pa.release()
-		if !vdWait(pb.reached, 15*time.Second) {
-			e.out.Why = "worker did not see the message at the re-check"
-			e.out.Stalled = !e.handled(m1.ID)
-			return true
-		}
-		e.trace("worker paused after IsEmpty()==false, state " + c01StateNameLib(e.pid.schedState.Load()))
-		m2 := e.msg(true, true)
-		if !e.tell(m2) { // wins Idle->Scheduled, pushes a ticket; some worker takes it
-			return false
-		}
-		vdWait(m1.Entered, 2*time.Second)
-		e.trace(fmt.Sprintf("while the first worker is paused: m1 handled=%v", e.handled(m1.ID)))
-		pb.release()
-		time.Sleep(20 * time.Millisecond)
-		m3 := e.msg(false, true)
-		if !e.tell(m3) {
-			return false
-		}
-		if vdWait(m2.Entered, 2*time.Second) && vdWait(m3.Entered, 150*time.Millisecond) {
-			e.out.EarlyRun = true
-		}
-		return true
-	}))
+	outs = append(outs, vdRunScenario(vdS6Name, mailbox, 32, vdS6))
 	// S7: a producer is preempted on entry to Enqueue (nothing published yet): whatever it did before must not
 	// have consumed the wake-up that belongs to the message.
 	outs = append(outs, vdRunScenario("S7 producer preempted before its enqueue", mailbox, 32, func(e *vdScenarioEnv) bool {
@@ -650,19 +712,19 @@ type vdStressCfg struct {
 }
 type vdStressOut struct {
 	Cfg       vdStressCfg `json:"cfg"`
-	Accepted  int          `json:"accepted"`
-	Rejected  int          `json:"rejected"`
-	Handled   int64        `json:"handled"`
-	Overlaps  int64        `json:"overlaps"`
-	MaxConc   int32        `json:"max_concurrent"`
-	DeqRaces  int64        `json:"concurrent_dequeues"`
-	Dup       int          `json:"duplicates"`
-	Lost      int          `json:"lost"`
-	Stalled   bool         `json:"stalled"`
-	FinalSt   string       `json:"final_state"`
-	OverlapAt []string     `json:"overlap_at"`
-	GateHits  []int64      `json:"gate_hits"`
-	Err       string       `json:"err"`
+	Accepted  int         `json:"accepted"`
+	Rejected  int         `json:"rejected"`
+	Handled   int64       `json:"handled"`
+	Overlaps  int64       `json:"overlaps"`
+	MaxConc   int32       `json:"max_concurrent"`
+	DeqRaces  int64       `json:"concurrent_dequeues"`
+	Dup       int         `json:"duplicates"`
+	Lost      int         `json:"lost"`
+	Stalled   bool        `json:"stalled"`
+	FinalSt   string      `json:"final_state"`
+	OverlapAt []string    `json:"overlap_at"`
+	GateHits  []int64     `json:"gate_hits"`
+	Err       string      `json:"err"`
 }
 
 func vdRunStress(cfg vdStressCfg, seed uint64) (out vdStressOut) {
@@ -802,21 +864,35 @@ func vdRunStress(cfg vdStressCfg, seed uint64) (out vdStressOut) {
 	return out
 }
 
-
 // ---------------------------------------------------------------- grain stress
 type vdGrain struct {
-	rec *vdRecorder
+	rec            *vdRecorder
+	failDeactivate bool
+	activations    atomic.Int32
+	deactivations  atomic.Int32
 }
 
-func (g *vdGrain) OnActivate(context.Context, *GrainProps) error   { return nil }
-func (g *vdGrain) OnDeactivate(context.Context, *GrainProps) error { return nil }
+func (g *vdGrain) OnActivate(context.Context, *GrainProps) error { g.activations.Add(1); return nil }
+func (g *vdGrain) OnDeactivate(context.Context, *GrainProps) error {
+	g.deactivations.Add(1)
+	if g.failDeactivate {
+		return fmt.Errorf("verif: flush failed")
+	}
+	return nil
+}
 func (g *vdGrain) OnReceive(ctx *GrainContext) {
 	switch m := ctx.Message().(type) {
 	case *vdMsg:
 		g.rec.enter(fmt.Sprintf("grain msg %d", m.ID))
 		g.rec.record(m.ID)
+		if m.Entered != nil {
+			close(m.Entered)
+		}
 		for i := 0; i < m.Spin; i++ {
 			runtime.Gosched()
+		}
+		if m.Block != nil {
+			<-m.Block
 		}
 		g.rec.exit()
 		ctx.NoErr()
@@ -914,7 +990,6 @@ func vdRunGrainStress(senders, per, budget, procs int, seed uint64) (out vdGrain
 	rec.mu.Unlock()
 	return out
 }
-
 
 func vdPrio(a, b any) bool {
 	x, ok1 := a.(*vdMsg)
@@ -1071,4 +1146,50 @@ func vdRunStashStress(mailbox string, senders, per, budget, procs int, seed uint
 		}
 	}
 	return out
+}
+
+func vdS6(e *vdScenarioEnv) bool {
+	if !e.alignTo(e.bound, 1) {
+		e.out.Why = "could not align the mailbox to its boundary"
+		return false
+	}
+	pa := newVdPauser(gpDeqAfterNil, 1, -1)
+	pb := newVdPauser(gpEmptyAfter, 1, 0)
+	e.gate.setHook(func(p vdGatePoint, b bool) { pa.hook(p, b); pb.hook(p, b) })
+	defer pa.release()
+	defer pb.release()
+	if !e.tell(e.msg(false, false)) {
+		return false
+	}
+	if !vdWait(pa.reached, 15*time.Second) {
+		e.out.Why = "worker never observed an empty dequeue"
+		return false
+	}
+	m1 := e.msg(false, true)
+	if !e.tell(m1) { // TrySchedule fails: state is Processing
+		return false
+	}
+	pa.release()
+	if !vdWait(pb.reached, 15*time.Second) {
+		e.out.Why = "worker did not see the message at the re-check"
+		e.out.Stalled = !e.handled(m1.ID)
+		return true
+	}
+	e.trace("worker paused after IsEmpty()==false, state " + c01StateNameLib(e.pid.schedState.Load()))
+	m2 := e.msg(true, true)
+	if !e.tell(m2) { // wins Idle->Scheduled, pushes a ticket; some worker takes it
+		return false
+	}
+	vdWait(m1.Entered, 2*time.Second)
+	e.trace(fmt.Sprintf("while the first worker is paused: m1 handled=%v", e.handled(m1.ID)))
+	pb.release()
+	time.Sleep(20 * time.Millisecond)
+	m3 := e.msg(false, true)
+	if !e.tell(m3) {
+		return false
+	}
+	if vdWait(m2.Entered, 2*time.Second) && vdWait(m3.Entered, 150*time.Millisecond) {
+		e.out.EarlyRun = true
+	}
+	return true
 }
